@@ -4,7 +4,10 @@ mod attrib;
 mod c01;
 mod c02;
 mod c03;
+mod c04;
 mod c05;
+mod c06;
+mod c07;
 mod c08;
 mod c12;
 mod c14;
@@ -15,6 +18,7 @@ mod e2e;
 mod gen;
 mod oracle;
 mod report;
+mod sanitize;
 mod spec;
 mod stages;
 
@@ -29,6 +33,9 @@ fn main() {
     if args.len() < 2 {
         eprintln!("usage: vharness <ID> <quick|thorough> [--seed N] [--replay FILE]");
         std::process::exit(2);
+    }
+    if args[1] == "__c07_large" {
+        std::process::exit(c07::child_main(&args[2], args[3].parse().unwrap_or(1)));
     }
     let prop = args[1].to_uppercase();
     let mut tier = std::env::var("VERIF_TIER").ok().filter(|t| t == "quick" || t == "thorough").unwrap_or_else(|| "quick".to_string());
@@ -62,7 +69,10 @@ fn main() {
             "C01" => c01::replay(&ctx, case),
             "C02" => c02::replay(&ctx, case),
             "C03" => c03::replay(&ctx, case),
+            "C04" => c04::replay(&ctx, case),
             "C05" => c05::replay(&ctx, case),
+            "C06" => c06::replay(&ctx, case),
+            "C07" => c07::replay(&ctx, case),
             "C08" => c08::replay(&ctx, case),
             "C12" => c12::replay(&ctx, case),
             "C15" => c15::replay(&ctx, case),
@@ -93,7 +103,10 @@ fn main() {
         "C01" => c01::run(&ctx),
         "C02" => c02::run(&ctx),
         "C03" => c03::run(&ctx),
+        "C04" => c04::run(&ctx),
         "C05" => c05::run(&ctx),
+        "C06" => c06::run(&ctx),
+        "C07" => c07::run(&ctx),
         "C08" => c08::run(&ctx),
         "C12" => c12::run(&ctx),
         "C14" => c14::run(&ctx),
